@@ -1,6 +1,7 @@
 import Splipy.Lemmas.SchoenbergWhitney
 import Splipy.Lemmas.TensorEvalObj1
 import Splipy.Lemmas.C14SolveEq
+import Splipy.Lemmas.C14Through
 set_option linter.unusedSectionVars false
 
 /-!
@@ -135,6 +136,115 @@ theorem NestedPts.congr_c14 {τ : ℕ → K} {q n : ℕ} {x y : ℕ → K} (hn :
   last := by rw [h (n-1) (by omega)]; exact hx.last
   lt_succ := fun l hl => by rw [h l (by omega), h (l+1) hl]; exact hx.lt_succ l hl
   nest := fun l h1 h2 => by rw [h l (by omega)]; exact hx.nest l h1 h2
+
+end Interp
+end Splipy
+
+namespace Splipy
+open Finset
+variable {K : Type} [Field K] [LinearOrder K] [IsStrictOrderedRing K] [FloorRing K]
+
+namespace Interp
+
+omit [LinearOrder K] [IsStrictOrderedRing K] [FloorRing K] in
+/-- `tensordot` succeeds when the contracted lengths agree. -/
+theorem tensordot_ok (M : Mat K) (t : Tensor K) (ax n : ℕ) (hax : ax < t.shape.length)
+    (hn : t.shape.getD ax 0 = n) (hM : ∀ r < M.size, (M.getD r #[]).size = n) :
+    tensordot M t ax = .ok (moveFront (Tensor.applyAxis M t ax) ax) := by
+  unfold tensordot
+  rw [if_neg]
+  rintro (h | h)
+  · rw [Array.any_eq_true] at h
+    obtain ⟨r, hr, hne⟩ := h
+    have := hM r hr
+    have e : M[r] = M.getD r #[] := by simp [Array.getD, hr]
+    rw [e, hn, this] at hne
+    simp at hne
+  · omega
+
+/-- The Greville collocation matrix of a clamped continuous basis is inverted by the model
+(Schoenberg–Whitney + completeness of Gauss–Jordan); the inverse is well shaped. -/
+theorem invC_greville_ok {b : Basis K} (hv : b.Valid) (hper : b.periodic = -1)
+    (hp : 2 ≤ b.order) (hc0 : b.kn 0 = b.kn (b.order - 1))
+    (hc1 : b.kn b.numFunctions = b.kn (b.numFunctions + (b.order - 1)))
+    (hmult : ∀ i, 1 ≤ i → i < b.numFunctions → b.kn i < b.kn (i + (b.order - 1)))
+    {tol : K} (htol : 0 < tol)
+    (hgap : ∀ i j, b.kn i < b.kn j → b.kn i + 2 * ((b.order - 1 : ℕ) : K) * tol ≤ b.kn j) :
+    ∃ (g : Array K) (Ni : Mat K), b.greville = .ok g ∧ g.size = b.numFunctions ∧
+      invC (colloc b tol g.toList 0) = .ok Ni ∧ Ni.size = b.numFunctions ∧
+      ∀ r < b.numFunctions, (Ni.getD r #[]).size = b.numFunctions := by
+  have hg := sw_greville_eq b hp
+  set pts := Array.ofFn (n := b.numFunctions) (fun i => grevilleAbscissa b.kn (b.order - 1) i.val) with hpts
+  obtain ⟨Nc, hNc⟩ := greville_invChecked_ok_gap hv hper hp hc0 hc1 hmult htol pts hg hgap
+  have hlen : pts.toList.length = b.numFunctions := by rw [hpts]; simp
+  obtain ⟨_, hL⟩ := Mat.invChecked_spec _ _ hNc
+  have hshape := basisMat_shape b tol pts.toList hlen
+  rw [hlen] at hshape
+  have hnr : (Obj.basisMat b tol pts.toList 0 true).nrows = b.numFunctions := hshape.1
+  rw [hnr] at hL
+  obtain ⟨Ni, hNi⟩ := invC_complete (colloc b tol pts.toList 0) b.numFunctions hshape (fun i l => Nc.get i l)
+    (fun i j hi hj => hL i hi j hj)
+  have hinv := hNi
+  rw [invC_eq_inv (colloc b tol pts.toList 0) b.numFunctions hshape] at hinv
+  obtain ⟨s1, s2, _⟩ := Mat.inv_sound _ Ni b.numFunctions hshape hinv
+  exact ⟨pts, Ni, hg, by rw [hpts]; simp, hNi, s1, s2⟩
+
+/-- **`surface_factory.interpolate` at the default Greville parameters SUCCEEDS** for two clamped
+continuous non-periodic bases (Schoenberg–Whitney in each direction), for both input layouts. -/
+theorem interpolateGrid_ok_greville_surface {bu bv : Basis K}
+    (hvu : bu.Valid) (hperu : bu.periodic = -1) (hpu : 2 ≤ bu.order)
+    (hc0u : bu.kn 0 = bu.kn (bu.order - 1))
+    (hc1u : bu.kn bu.numFunctions = bu.kn (bu.numFunctions + (bu.order - 1)))
+    (hmultu : ∀ i, 1 ≤ i → i < bu.numFunctions → bu.kn i < bu.kn (i + (bu.order - 1)))
+    (hvv : bv.Valid) (hperv : bv.periodic = -1) (hpv : 2 ≤ bv.order)
+    (hc0v : bv.kn 0 = bv.kn (bv.order - 1))
+    (hc1v : bv.kn bv.numFunctions = bv.kn (bv.numFunctions + (bv.order - 1)))
+    (hmultv : ∀ i, 1 ≤ i → i < bv.numFunctions → bv.kn i < bv.kn (i + (bv.order - 1)))
+    {tol : K} (htol : 0 < tol)
+    (hgapu : ∀ i j, bu.kn i < bu.kn j → bu.kn i + 2 * ((bu.order - 1 : ℕ) : K) * tol ≤ bu.kn j)
+    (hgapv : ∀ i j, bv.kn i < bv.kn j → bv.kn i + 2 * ((bv.order - 1 : ℕ) : K) * tol ≤ bv.kn j)
+    (x : Tensor K) (d : ℕ)
+    (hx : x.shape = [bu.numFunctions * bv.numFunctions, d] ∨ x.shape = [bu.numFunctions, bv.numFunctions, d]) :
+    ∃ cp, interpolateGrid [bu, bv] tol none x = .ok cp ∧ interpolateGridCore [bu, bv] tol none x = .ok cp := by
+  obtain ⟨gu, iu, hgu, hgus, hiu, hiuS, hiuR⟩ := invC_greville_ok hvu hperu hpu hc0u hc1u hmultu htol hgapu
+  obtain ⟨gv, iv, hgv, hgvs, hiv, hivS, hivR⟩ := invC_greville_ok hvv hperv hpv hc0v hc1v hmultv htol hgapv
+  -- the prologue
+  have hx' : ∃ x', gridInput [bu, bv] x = .ok x' ∧ x'.shape = [bu.numFunctions, bv.numFunctions, d] := by
+    unfold gridInput
+    rcases hx with h | h
+    · refine ⟨{ x with shape := [bu.numFunctions, bv.numFunctions, d] }, ?_, rfl⟩
+      have hl : x.shape.length = 2 := by rw [h]; rfl
+      have hd : x.shape.getLastD 1 = d := by rw [h]; rfl
+      simp only [hl, if_true, List.map_cons, List.map_nil, hd, List.cons_append, List.nil_append]
+      unfold Interp.reshape
+      have : Tensor.prod [bu.numFunctions, bv.numFunctions, d] = Tensor.prod x.shape := by
+        rw [h]; simp only [Tensor.prod, List.foldl]; ring
+      rw [if_neg (by rw [this]; simp)]
+    · refine ⟨x, ?_, h⟩
+      have hl : x.shape.length ≠ 2 := by rw [h]; simp
+      simp only [hl, if_false]
+  obtain ⟨x', hx1, hx2⟩ := hx'
+  -- the two contractions
+  have t1 := tensordot_ok iv x' 1 bv.numFunctions (by rw [hx2]; simp) (by rw [hx2]; rfl)
+    (fun r hr => hivR r (by rw [← hivS]; exact hr))
+  obtain ⟨r1sh, _, _⟩ := tensordot3 iv x' _ hx2 t1
+  have t2 := tensordot_ok iu (moveFront (Tensor.applyAxis iv x' 1) 1) 1 bu.numFunctions (by rw [r1sh]; simp)
+    (by rw [r1sh]; rfl) (fun r hr => hiuR r (by rw [← hiuS]; exact hr))
+  obtain ⟨r2sh, _, _⟩ := tensordot3 iu _ _ r1sh t2
+  have hcore : interpolateGridCore [bu, bv] tol none x
+      = .ok (moveFront (Tensor.applyAxis iu (moveFront (Tensor.applyAxis iv x' 1) 1) 1) 1) := by
+    unfold interpolateGridCore gridParams chain
+    simp only [bind, Except.bind, pure, Except.pure, hx1, List.mapM_cons, List.mapM_nil, hgu, hgv, Except.map,
+      List.zip_cons_cons, List.zip_nil_right, List.map_cons, List.map_nil, List.reverse_cons, List.reverse_nil,
+      List.nil_append, List.cons_append, hiu, hiv, List.foldlM, List.length_cons, List.length_nil,
+      Nat.add_one_sub_one, t1, t2]
+  obtain ⟨r, hr, rsh, rsz, rent⟩ := throughConstructor3 _ r2sh
+  have hsz := tensordot3_size iu _ _ r1sh t2
+  have : r = _ := tensor_ext3 _ r r2sh rsh hsz rsz rent
+  refine ⟨_, ?_, hcore⟩
+  unfold interpolateGrid
+  simp only [bind, Except.bind, hcore, List.length_cons, List.length_nil]
+  rw [hr, this]
 
 end Interp
 end Splipy
